@@ -10,6 +10,10 @@ src, out, K, L = sys.argv[1], sys.argv[2], int(sys.argv[3]), int(sys.argv[4])
 ALPHA = sys.argv[5] if len(sys.argv) > 5 else "ab c/"
 EXTRAS = os.environ.get("EXTRAS") == "1"
 gs = [json.loads(l) for l in open(src)]
+GETTERS = {}
+if os.environ.get("GETTERS"):
+    for g, l in zip(gs, open(os.environ["GETTERS"])):
+        GETTERS[g["id"]] = json.loads(l)
 os.makedirs(out, exist_ok=True)
 
 def fill(t, **kw):
@@ -40,6 +44,13 @@ pub fn render(t: &T, d: usize, input: &str, out: &mut String) {
     if t.3.is_empty() { out.push_str(&format!("{}{} {:?}\n", "    ".repeat(d), t.0, &input[t.1..t.2])); }
     else { out.push_str(&format!("{}{}\n", "    ".repeat(d), t.0)); for c in &t.3 { render(c, d + 1, input, out); } }
 }
+pub trait Flat<'i, R> { fn flat(&self, out: &mut Vec<(usize, usize)>); }
+impl<'s, 'i, R: pest_typed::RuleType, X: pest_typed::Spanned<'i, R>> Flat<'i, R> for &'s X { fn flat(&self, out: &mut Vec<(usize, usize)>) { let sp = self.span(); out.push((sp.start(), sp.end())); } }
+impl<'i, R, A: Flat<'i, R>> Flat<'i, R> for Option<A> { fn flat(&self, out: &mut Vec<(usize, usize)>) { if let Some(a) = self { a.flat(out); } } }
+impl<'i, R, A: Flat<'i, R>> Flat<'i, R> for Vec<A> { fn flat(&self, out: &mut Vec<(usize, usize)>) { for a in self { a.flat(out); } } }
+macro_rules! flat_tuple { ($($n:ident $i:tt),+) => { impl<'i, R, $($n: Flat<'i, R>),+> Flat<'i, R> for ($($n,)+) { fn flat(&self, out: &mut Vec<(usize, usize)>) { $( self.$i.flat(out); )+ } } } }
+flat_tuple!(A 0, B 1); flat_tuple!(A 0, B 1, C 2); flat_tuple!(A 0, B 1, C 2, D 3); flat_tuple!(A 0, B 1, C 2, D 3, E 4); flat_tuple!(A 0, B 1, C 2, D 3, E 4, F 5);
+flat_tuple!(A 0, B 1, C 2, D 3, E 4, F 5, G 6); flat_tuple!(A 0, B 1, C 2, D 3, E 4, F 5, G 6, H 7); flat_tuple!(A 0, B 1, C 2, D 3, E 4, F 5, G 6, H 7, I 8);
 pub fn hash_of<H: std::hash::Hash>(h: &H) -> u64 { use std::hash::Hasher; let mut s = std::collections::hash_map::DefaultHasher::new(); h.hash(&mut s); s.finish() }
 pub const SPAN_MAXLEN: usize = 3;
 pub const ALPHA: [char; @ALPHA_N@] = @ALPHA_V@;
@@ -211,6 +222,23 @@ EXTRA_ERR = r'''
             }
         }
 '''
+EXTRA_GETTER = r'''
+            { let mut got = vec![]; Flat::<u@GID@::Rule>::flat(&node.r#@X@(), &mut got);
+              let exp: Vec<(usize, usize)> = refs.iter().filter(|r| r.0 == "@X@").map(|r| (r.1, r.2)).collect();
+              if got != exp { out.push(format!("MISMATCH-C16 g@GID@ @RULE@.@X@() {:?} getter={:?} spec={:?}", s, got, exp)); } }
+'''
+EXTRA_GETTERS_HEAD = r'''
+        // C16: flattened getter results vs the references the Spec run of this rule evaluates directly
+        if let (Ok((_, node)), Ok(Some(refs))) = (u@GID@::rules::r#@RULE@::try_parse_partial(s.as_str()), spec.direct_refs("@RULE@", s.as_str(), 2_000_000)) {
+'''
+EXTRA_FULL = r'''
+        // C04: full parse <=> prefix parse + (kind-dependent) trailing skip reaches the end of input
+        {
+            let full = t@GID@::rules::r#@RULE@::try_parse(s.as_str()).is_ok();
+            let exp = match &typed { None => Some(false), Some((p, _)) => if @ATOMICKIND@ { Some(*p == s.len()) } else { spec.skip_end(s.as_str(), *p, 1_000_000).ok().map(|e| e == s.len()) } };
+            if let Some(exp) = exp { if exp != full { out.push(format!("MISMATCH-C04 g@GID@ @RULE@ {:?} full={} expected={} prefix={:?}", s, full, exp, typed.as_ref().map(|x| x.0))); } }
+        }
+'''
 EXTRA_TREE = r'''
         // C15: traversal helpers vs plain recursion over as_token()
         if let Ok((_, node)) = t@GID@::rules::r#@RULE@::try_parse_partial(s.as_str()) {
@@ -304,6 +332,10 @@ pest_meta = "=2.7.14"
                 continue
             extra = ""
             if EXTRAS:
+                extra += fill(EXTRA_FULL, ATOMICKIND="true" if kind in ("@", "$") else "false")
+                xs = [x for x in GETTERS.get(gid, {}).get(rule, []) if g["kinds"].get(x, "_") != "_"]
+                if kind != "@" and xs:
+                    extra += EXTRA_GETTERS_HEAD + "".join(fill(EXTRA_GETTER, X=x) for x in xs) + "        }\n"
                 extra += EXTRA_OPTS
                 if not has_counted:
                     extra += EXTRA_RAW
